@@ -124,7 +124,26 @@ def judge(country: str, values: dict, via: str):
     return "ok", None, exp, (k, v)
 
 
+def runtime_shard(args):
+    """Run-time update of the country table through registry.save (shared with C18): assembly,
+    decomposition and generation follow the table in force, also for objects created earlier."""
+    from . import c18
+    from ..engine import sandbox
+    part = par.Part()
+    before = sandbox.deep_snapshot()
+    part["evals"] += 40
+    for i in range(40):
+        part.seen.add(hash(("runtime", i)))
+    for sig, exp, obs in c18.runtime_table_problems():
+        part.violation(sig + " [run-time table update]", {"kind": "runtime-table"}, exp, obs)
+    sandbox.assert_restored(before)
+    part.stat("runtime_table_updates", 3)
+    return part.done()
+
+
 def shard(args):
+    if args[0] == "runtime-table":
+        return runtime_shard(args)
     if args[0] == "sequence":
         return sequence_shard(args)
     if args[0] == "interpreter":
@@ -282,6 +301,10 @@ def sequence_shard(args):
 
 
 def replay(case: dict) -> dict:
+    if case.get("kind") == "runtime-table":
+        from . import c18
+        probs = c18.runtime_table_problems()
+        return {"ok": not probs, "observed": [(p[0], p[2]) for p in probs]}
     if case.get("interpreter"):
         label = case["interpreter"]
         part = par.in_interpreter(INTERPRETERS[label], "mc.props.c08", "interpreter_child", ("quick", label))
@@ -298,7 +321,7 @@ def main(tier: str) -> int:
     extra = ["XX", "de", "D", "", "DEU", "ZZ"]
     seqs = [("sequence", o, tier) for o in ("sorted", "reversed", "by-structure", "by-structure-reversed")]
     seqs += [("interpreter", label, tier) for label in INTERPRETERS]
-    par.run_shards(run, shard, [(c, tier) for c in countries + extra] + seqs)
+    par.run_shards(run, shard, [("runtime-table", tier)] + [(c, tier) for c in countries + extra] + seqs)
     run.extra.update({"countries": len(countries), "pseudo_countries": extra})
     run.assumptions += ["reference assembly mc/ref/gen.py over the tree's position table; national "
                         "digits from mc/ref/nat.py",
